@@ -284,6 +284,21 @@ class Custom(Ty):
         return self.fn(interp, name)
 
 
+class Dependent(Ty):
+    """Shape of a result (or of a raised exception) that is built from the arguments of the call:
+    ``fn(interp, name, env)`` with ``env`` = parameters and ghosts by name.  Only meaningful where a
+    contract is *used* (call sites); e.g. a result object that carries one of the arguments."""
+
+    def __init__(self, fn):
+        self.fn = fn
+
+    def make(self, interp, name):
+        raise Unsupported('Dependent shape outside a call site')
+
+    def make_for_call(self, interp, name, env):
+        return self.fn(interp, name, env)
+
+
 def make_indexed(interp, ty, uid, idx_term):
     """Element of an SList at a symbolic index: scalar fields become applications of
     uninterpreted functions to the index, so equal indices give equal elements."""
@@ -307,7 +322,58 @@ def make_indexed(interp, ty, uid, idx_term):
         return new_opaque(interp, iface, uid + '[]', index=(idx_term,))
     if isinstance(ty, Opaq):
         return OpaqueVal('%s[%s]' % (uid, z3.simplify(idx_term)))
-    raise Unsupported('indexed element of type %r' % (ty,))
+    return indexed_value(interp, ty, uid + '[]', (idx_term,))
+
+
+def indexed_value(interp, ty, base, idx):
+    """A value of shape ``ty`` that is a function of the index tuple ``idx`` (element of a symbolic-length
+    sequence, or a component of such an element): scalars are applications of uninterpreted functions
+    named after ``base``, real instances (`Inst`) are built from indexed fields."""
+    st = interp.st
+    sorts = [z3.IntSort()] * len(idx)
+    if isinstance(ty, _Int):
+        t = z3.Function(base, *(sorts + [z3.IntSort()]))(*idx)
+        if ty.lo is not None:
+            st.assume(t >= ty.lo)
+        if ty.hi is not None:
+            st.assume(t <= ty.hi)
+        return SInt(t)
+    if isinstance(ty, _Bool):
+        return SBool(z3.Function(base, *(sorts + [z3.BoolSort()]))(*idx))
+    if isinstance(ty, _Str):
+        return SStr(z3.Function(base, *(sorts + [z3.StringSort()]))(*idx))
+    if isinstance(ty, Opt):
+        isn = z3.Function(base + '.is_none', *(sorts + [z3.BoolSort()]))(*idx)
+        return SOpt(isn, indexed_value(interp, ty.inner, base, idx))
+    if isinstance(ty, Iface) and not isinstance(ty, Involution):
+        iface = ty.iface() if isinstance(ty.iface, types.FunctionType) else ty.iface
+        return new_opaque(interp, iface, base, index=idx)
+    if isinstance(ty, OneOf):
+        if len(ty.values) == 1:
+            return ty.values[0]
+        t = z3.Function(base + '.idx', *(sorts + [z3.IntSort()]))(*idx)
+        st.assume(z3.And(t >= 0, t < len(ty.values)))
+        return SChoice(t, ty.values)
+    if isinstance(ty, Const):
+        return ty.value
+    if isinstance(ty, Opaq):
+        return OpaqueVal('%s[%s]' % (base, ', '.join(str(z3.simplify(i)) for i in idx)))
+    if isinstance(ty, Inst):
+        cls = ty.cls
+        if ty.tuple_items is not None:
+            obj = tuple.__new__(cls, [indexed_value(interp, t, '%s[%d]' % (base, i), idx)
+                                      for i, t in enumerate(ty.tuple_items)])
+        elif issubclass(cls, BaseException):
+            obj = cls.__new__(cls)
+        else:
+            obj = object.__new__(cls)
+        for k, t in ty.fields.items():
+            v = indexed_value(interp, t, '%s.%s' % (base, k), idx) if isinstance(t, Ty) else t
+            object.__setattr__(obj, k, v)
+        if ty.invariant is not None:
+            st.assume(interp.truth(interp.call(ty.invariant, [obj], {})))
+        return obj
+    raise Unsupported('indexed value of type %r' % (ty,))
 
 
 # ============================================================================ interfaces (opaque objects)
@@ -422,7 +488,7 @@ def _indexed_scalar(interp, o, name, ty):
         return SChoice(t, ty.values) if len(ty.values) > 1 else ty.values[0]
     if isinstance(ty, Const):
         return ty.value
-    raise Unsupported('indexed attribute of type %r' % (ty,))
+    return indexed_value(interp, ty, base, idx)
 
 
 class Registry:
